@@ -168,7 +168,10 @@ Sinks == {"login_dest_loginpage", "login_dest_2fapage", "user_query_root", "user
           "redirect_bodies",
           \* profile_path_user_readonly: another user's profile opened by an administrator whose session lacks the hardware
           \* token (the page then carries a read-only notice)
-          "profile_path_user_readonly"}
+          "profile_path_user_readonly",
+          \* token_attestation_profile: what a registering client says about its token (the subject of the attestation
+          \* certificate, the authenticator's attestation type) as the profile page shows it in "device data"
+          "token_attestation_profile"}
 PayloadSeqs == UNION {[1..k -> PayloadAtoms] : k \in 1..2}
 InC18(r) == \E s \in Sinks, p \in PayloadSeqs : r = [sink |-> s, payload |-> p]
 
